@@ -89,11 +89,21 @@ def spaces(tier):
     fn = list(itertools.product(range(len(pairs)), range(len(ET_CURV)),
                                 GRIDS, (False, True), (1, 2), MEANS))
 
+    # whole-number grids handed over as integer arrays as well
+    fn += [(p_, ec_, g_, d_, 1, 19.0, 'int64')
+           for p_ in range(len(pairs)) for ec_ in range(len(ET_CURV))
+           for g_ in GRIDS if all(float(z).is_integer() for z in GRIDS[g_])
+           for d_ in (False, True)]
+
     def decode(i):
-        p, ec, grid, desc, r, mean = fn[i]
-        return {'kind': 'fn', 'params': list(pairs[p]), 'et': ET_CURV[ec][0],
+        p, ec, grid, desc, r, mean = fn[i][:6]
+        case = {'kind': 'fn', 'params': list(pairs[p]),
+                'et': ET_CURV[ec][0],
                 'curvature': ET_CURV[ec][1], 'grid': grid,
                 'descending': desc, 'refine': r, 'mean': mean}
+        if len(fn[i]) > 6:
+            case['dtype'] = fn[i][6]
+        return case
     cli = list(itertools.product(range(len(simdata.WORDS)), range(4),
                                  (0.0, 2.36), (False, True)))
 
@@ -162,7 +172,8 @@ def run_fn(case):
     def real(levels, mean):
         return [float(x) for x in sim_mod.compute_recession_curve(
             specific_yield=sy, transmissivity_m2_d=T_real,
-            zeta_grid_mm=np.array(levels), mean_elapsed_time_d=mean,
+            zeta_grid_mm=np.array(levels, dtype=case.get('dtype', 'float64')),
+            mean_elapsed_time_d=mean,
             curvature_km=curv * 1e-3, et_mm_d=et)]
     try:
         t = real(grid, case['mean'])
